@@ -7,12 +7,13 @@ moves TLC's Src observations into the IR run; TLC + the two specifications decid
   M   Src_MC.tla      laws of the typing / conversion / operator definitions, exhaustively over all type pairs and
                       boundary values, and hand-written micro programs with outcomes derived from the standard
   G   Src_Run.tla     TLC executes every (program, argument vector) under Src.tla and writes the observation
-  T   Src_IR.tla      TLC executes ppci's IR (IR.tla) and checks DefinedStaysDefined / SameReturn / SameGlobals /
-                      SameCalls against the Src observation whenever Src ended "ok"
+  T   Src_IR.tla      TLC executes ppci's IR (IR.tla) and checks DefinedStaysDefined / SrcSameReturn / SrcSameGlobals /
+                      SrcSameCalls against the Src observation whenever Src ended "ok"
   ref gcc -O0 -fsanitize=undefined (thorough tier): guard only (SPEC-SUSPECT), never changes the verdict otherwise
 """
 import io
 import json
+import logging
 import os
 import random
 import shutil
@@ -34,12 +35,21 @@ IR_CFG = """INIT Init
 NEXT Next
 CHECK_DEADLOCK FALSE
 INVARIANT DefinedStaysDefined
-INVARIANT SameReturn
-INVARIANT SameGlobals
-INVARIANT SameCalls
+INVARIANT SrcSameReturn
+INVARIANT SrcSameGlobals
+INVARIANT SrcSameCalls
 """
+logging.getLogger().addHandler(logging.NullHandler())   # ppci warns through logging; keep the check's output clean
 IR_INT = {"i8": 1, "u8": 1, "i16": 2, "u16": 2, "i32": 4, "u32": 4, "i64": 8, "u64": 8}
 WORKERS = 8
+QUICK_PROBES = 500            # sampled probes in the quick tier (plus the sentinels); thorough runs all of them
+QUICK_PROBE_VECTORS = 4
+QUICK_PROGRAMS = 40
+# probes that are always run with all their vectors: they decide which construct classes the random programs avoid
+SENTINELS = {"bin:<:c8,u8", "bin:>=:i16,u16", "bin:==:c8,u16", "unary:-:u8", "unary:~:u16", "unary:-:c8",
+             "bin:<<:u32,i64", "type-of:<<:i32,u64", "type-of:>>:u16,u32",
+             "compound:/=:lhs=u8,rhs=i32", "compound:%=:lhs=i16,rhs=u32", "compound:>>=:lhs=u8,rhs=i32",
+             "compound-mem:<<=:lhs=u16,rhs=i32", "compound:/=:lhs=i32,rhs=u32", "compound:+=:lhs=u8,rhs=i32"}
 
 
 # ------------------------------------------------------------------ AST helpers for the systematic probes
@@ -89,6 +99,13 @@ def bvals(t, small=False):
     return sorted({v for v in s if lo <= v <= hi})
 
 
+def type_reveal(e):
+    """An expression whose value depends only on the *type* of e (which must be a promoted type):
+    int -> 0, long long -> 1, unsigned int -> 2147483647, unsigned long long -> 2^63 - 1."""
+    z = B("-", B("*", e, L(0)), L(1))
+    return B("+", B("/", z, L(2)), B("<", z, L(0, "u32")))
+
+
 def probes():
     """Systematic micro programs: every construct of the property over every combination of integer types.
     Yields (construct key, program, small_second_operand)."""
@@ -97,6 +114,10 @@ def probes():
             for tb in TYPES:
                 yield ("bin:%s:%s,%s" % (op, ta, tb),
                        PROG([FN("f", "u64", [("a", ta), ("b", tb)], [RET(B(op, V("a"), V("b")))])]), op in ("<<", ">>"))
+                # the type of the result, observed through arithmetic that depends on it
+                yield ("type-of:%s:%s,%s" % (op, ta, tb),
+                       PROG([FN("f", "u64", [("a", ta), ("b", tb)], [RET(type_reveal(B(op, V("a"), V("b"))))])]),
+                       op in ("<<", ">>"))
     for op in CASG_OPS:
         for ta in TYPES:
             for tb in TYPES:
@@ -117,6 +138,7 @@ def probes():
     for op in ("-", "~", "!"):
         for ta in TYPES:
             yield ("unary:%s:%s" % (op, ta), PROG([FN("f", "u64", [("a", ta)], [RET(U(op, V("a")))])]), False)
+            yield ("type-of:unary%s:%s" % (op, ta), PROG([FN("f", "u64", [("a", ta)], [RET(type_reveal(U(op, V("a"))))])]), False)
     for ta in TYPES:
         for tb in TYPES:
             yield ("cast:%s->%s" % (ta, tb),
@@ -133,6 +155,9 @@ def probes():
             yield ("cond:%s,%s" % (ta, tb),
                    PROG([FN("f", "u64", [("a", ta), ("b", tb)],
                             [RET({"k": "cond", "c": B("<", V("b"), L(3)), "a": V("a"), "b": V("b")})])]), False)
+            yield ("type-of:cond:%s,%s" % (ta, tb),
+                   PROG([FN("f", "u64", [("a", ta), ("b", tb)],
+                            [RET(type_reveal(B("+", {"k": "cond", "c": B("<", V("b"), L(3)), "a": V("a"), "b": V("b")}, L(0))))])]), False)
             # pointer arithmetic: p points at ga[1]; p[i] with i of every integer type (i = -1 is in bounds)
             gfun = {"n": "g", "ret": "u64", "params": [{"n": "i", "ty": tb}, {"n": "p", "ty": ta, "ptr": True, "len": 4}],
                     "body": [ASG({"k": "deref", "p": "p", "e": V("i")}, L(9), "+="),
@@ -194,13 +219,31 @@ def make_item(key, prog, vecs, ext, kind):
     return {"key": key, "prog": prog, "f": f, "vecs": vecs, "ext": ext, "kind": kind, "src": absprog.render_c(prog)}
 
 
-def random_items(ctx, n, nvec):
+def construct_class(key):
+    """The construct class (see absprog.sanitize) that a failing probe key belongs to, or None."""
+    parts = key.split(":")
+    fam, op = parts[0], parts[1] if len(parts) > 1 else ""
+    if fam in ("compound", "compound-mem"):
+        return "compound"
+    if fam == "unary" or (fam == "type-of" and op.startswith("unary")):
+        return "unary"
+    if fam in ("bin", "type-of"):
+        if op in ("<<", ">>"):
+            return "shift"
+        if op in ("<", "<=", ">", ">=", "==", "!="):
+            return "compare"
+    return None
+
+
+def random_items(ctx, n, nvec, classes=()):
     out = []
     for _ in range(n):
         seed = ctx.rng.randrange(1 << 30)
         prng = random.Random(seed)
         gen = absprog.Gen(prng, max_funcs=3, max_stmts=6, max_depth=3, features=absprog.C01_FEATURES)
         prog = gen.program()
+        if classes:
+            prog = absprog.sanitize(prog, classes)
         f, vecs = absprog.arg_vectors(prog, prng, nvec)
         ext = [{"name": x["n"], "rets": [absprog.word(prng.randrange(-5, 40), 4) for _ in range(6)]} for x in prog["externs"]]
         out.append(make_item("prog:c%d" % seed, prog, vecs, ext, "random"))
@@ -246,8 +289,10 @@ def run_src(ctx, items, label):
               "argv": [absprog.src_args(it["f"], v) for v in it["vecs"]], "ext": it["ext"], "fuel": 3000} for it in items]
     obsdir = tempfile.mkdtemp(prefix="obs_", dir=ctx.workdir)
     path = ctx.trace_file(cases, "src.json")
+    # no -coverage: TLC's cost model unfolds the mutually recursive evaluator and exhausts the heap; Src_Run.tla
+    # records the actions taken in the variable `acts` instead
     res = ctx.tlc("Src_Run", SRC_CFG, label=label, env={"TRACE_FILE": path, "OBS_DIR": obsdir}, continue_=True,
-                  workers=WORKERS)
+                  workers=WORKERS, coverage=False)
     os.unlink(path)
     if res.errors:
         e = res.errors[0]
@@ -258,6 +303,8 @@ def run_src(ctx, items, label):
         with open(os.path.join(obsdir, fn)) as fh:
             r = json.load(fh)
         obs[(r["i"] - 1, r["av"] - 1)] = r["obs"]
+        for a in r["acts"]:
+            ctx.cov["actions"]["Src." + a] = ctx.cov["actions"].get("Src." + a, 0) + 1
     shutil.rmtree(obsdir, ignore_errors=True)
     want = sum(len(it["vecs"]) for it in items)
     if len(obs) != want:
@@ -272,7 +319,8 @@ def judge(ctx, items, obs, label):
         cases.append({"id": it["key"], "mods": [it["pm"]], "fn": it["f"]["n"], "argv": it["ir_argv"], "ext": it["ext"],
                       "fuel": 20000, "obs": [obs[(k, a)] for a in range(len(it["vecs"]))]})
     path = ctx.trace_file(cases, "ir.json")
-    res = ctx.tlc("Src_IR", IR_CFG, label=label, env={"TRACE_FILE": path}, continue_=True, workers=WORKERS, heap="12g")
+    res = ctx.tlc("Src_IR", IR_CFG, label=label, env={"TRACE_FILE": path}, continue_=True, workers=WORKERS, heap="12g",
+                  coverage=os.environ.get("C01_COVERAGE", "1") == "1")
     os.unlink(path)
     bad = {}
     for e in res.errors:
@@ -372,8 +420,229 @@ def gcc_guard(ctx, items, obs, only=None):
 
 
 # ------------------------------------------------------------------ M: the specification checked by itself
+MC_CFG = """CONSTANT NV = %d
+INIT MInit
+NEXT MNext
+CHECK_DEADLOCK FALSE
+INVARIANT TypeOK
+INVARIANT NeverStuck
+INVARIANT LawTyping
+INVARIANT LawConvExact
+INVARIANT LawConvInt
+INVARIANT LawArithInt
+INVARIANT LawShiftInt
+INVARIANT LawWidth
+INVARIANT LawCmpWidth
+INVARIANT LawOvf64
+INVARIANT LawUnsigned64
+INVARIANT ExpectMet
+INVARIANT Deterministic
+INVARIANT TypesAgree
+"""
+SRC_ACTIONS = ["Decl", "DeclArr", "ExprStmt", "Assign", "IncDec", "If", "SeqStmt", "While", "DoWhile", "LoopTest", "For",
+               "ForTest", "Switch", "SwitchStep", "Break", "Continue", "Return", "BlockEnd", "OutOfFuel"]
+
+
+def IDX(a, e):
+    return {"k": "idx", "a": a, "e": e}
+
+
+def FLD(s, f):
+    return {"k": "fld", "s": s, "f": f}
+
+
+def DECL(n, ty, e):
+    return {"k": "decl", "n": n, "ty": ty, "e": e}
+
+
+def CALL(f, *args):
+    return {"k": "call", "f": f, "args": list(args)}
+
+
+def IF(c, t, f=()):
+    return {"k": "if", "c": c, "t": list(t), "f": list(f)}
+
+
+def CAST(ty, a):
+    return {"k": "cast", "ty": ty, "a": a}
+
+
+def micro_programs():
+    """Hand-written programs with the outcome the C standard prescribes (derived by hand, confirmed with gcc):
+    (name, program, [(args, status, return value, [external calls], {global: value})], stub table, fuel)."""
+    w = absprog.word
+    out = []
+
+    def add(name, prog, runs, ext=(), fuel=400):
+        out.append((name, prog, runs, list(ext), fuel))
+
+    EXT = [{"n": "ext_a", "ret": "i32", "args": ["i32"]}, {"n": "ext_b", "ret": "i32", "args": ["i32", "i32"]}]
+    STUB = [{"name": "ext_a", "rets": [w(11, 4), w(-3, 4)]}, {"name": "ext_b", "rets": [w(7, 4)]}]
+    # for: sum of 0..n-1, the bound is evaluated before every iteration
+    add("for-sum", PROG([FN("f", "i32", [("n", "i32")],
+                            [DECL("s", "i32", L(0)), {"k": "for", "v": "i", "lo": 0, "hi": V("n"), "b": [ASG(V("s"), V("i"), "+=")]},
+                             RET(V("s"))])]),
+        [([5], "ok", 10), ([0], "ok", 0), ([-3], "ok", 0)])
+    # while with continue and break; do-while runs its body once although the condition is false
+    add("while-break-continue",
+        PROG([FN("f", "i32", [("n", "i32")],
+                 [DECL("s", "i32", L(0)), DECL("k", "i32", L(0)),
+                  {"k": "while", "c": B("<", V("k"), V("n")),
+                   "b": [{"k": "inc", "lhs": V("k"), "op": "++"},
+                         IF(B("==", V("k"), L(2)), [{"k": "continue"}]),
+                         IF(B("==", V("k"), L(5)), [{"k": "break"}]),
+                         ASG(V("s"), V("k"), "+=")]},
+                  {"k": "dowhile", "c": B("<", V("k"), L(0)), "b": [ASG(V("s"), L(100), "+=")]},
+                  RET(V("s"))])]),
+        [([10], "ok", 1 + 3 + 4 + 100), ([1], "ok", 101), ([0], "ok", 100)])
+    # switch: default in the middle, fall-through, break leaves only the switch, continue goes to the loop
+    cases = [{"v": 1, "b": [ASG(V("r"), L(10), "+=")], "brk": False},
+             {"v": None, "b": [ASG(V("r"), L(100), "+=")], "brk": True},
+             {"v": 2, "b": [ASG(V("r"), L(1000), "+=")], "brk": False},
+             {"v": 7, "b": [ASG(V("r"), L(5), "+="), IF(B(">", V("a"), L(0)), [{"k": "continue"}])], "brk": True}]
+    add("switch",
+        PROG([FN("f", "i32", [("a", "c8")],
+                 [DECL("r", "i32", L(0)),
+                  {"k": "for", "v": "i", "lo": 0, "hi": L(2), "b": [{"k": "switch", "e": V("a"), "cases": cases},
+                                                                  ASG(V("r"), L(1), "+=")]},
+                  RET(V("r"))])]),
+        [([1], "ok", 222), ([2], "ok", 2010), ([7], "ok", 10), ([3], "ok", 202), ([-1], "ok", 202)])
+    # calls: sequenced calls are fine, two calls that write the same global in one expression are not
+    gfun = FN("g", "i32", [("x", "i32")], [ASG(V("gv"), B("+", V("gv"), V("x"))), RET(V("gv"))])
+    GV = [{"n": "gv", "ty": "i32", "len": 0, "init": [1]}]
+    add("calls-sequenced",
+        PROG([gfun, FN("f", "i32", [("a", "i32")],
+                       [DECL("t", "i32", CALL("g", V("a"))), DECL("u", "i32", CALL("g", B("+", V("a"), L(1)))),
+                        RET(B("+", B("*", V("t"), L(100)), V("u")))])], GV),
+        [([2], "ok", 306, [], {"gv": (6, 4)})])
+    add("calls-interfere", PROG([gfun, FN("f", "i32", [("a", "i32")], [RET(B("+", CALL("g", V("a")), CALL("g", L(1))))])], GV),
+        [([2], "unspec", 0)])
+    add("calls-nested-and-conditional",
+        PROG([gfun, FN("h", "i32", [("x", "i32"), ("y", "c8")], [RET(B("-", V("x"), V("y")))]),
+              FN("f", "i32", [("a", "i32")],
+                 [RET(B("+", CALL("h", CALL("g", V("a")), L(5)),
+                        {"k": "cond", "c": B("&&", B(">", V("a"), L(0)), B(">", CALL("h", V("a"), L(1)), L(0))),
+                         "a": CALL("h", L(50), L(8)), "b": L(0)}))])], GV),
+        [([2], "ok", (3 - 5) + 42, [], {"gv": (3, 4)}), ([0], "ok", (1 - 5) + 0), ([1], "ok", (2 - 5) + 0)])
+    add("call-argument-conversion",
+        PROG([FN("h", "i32", [("y", "c8")], [RET(V("y"))]), FN("f", "i32", [("a", "i32")], [RET(CALL("h", V("a")))])]),
+        [([100], "ok", 100), ([-128], "ok", -128), ([200], "impldef", 0)])
+    # external calls: logged in order with converted arguments, results from the stub table
+    add("extern-calls",
+        PROG([FN("f", "i32", [("a", "u8")],
+                 [{"k": "expr", "e": CALL("ext_a", V("a"))}, DECL("t", "i32", CALL("ext_b", CALL("ext_a", L(1)), L(2))),
+                  RET(B("+", V("t"), CALL("ext_a", L(9))))])], [], EXT),
+        [([200], "ok", 7 + 0, [("ext_a", [200]), ("ext_a", [1]), ("ext_b", [-3, 2]), ("ext_a", [9])])], STUB)
+    add("extern-calls-unordered",
+        PROG([FN("f", "i32", [("a", "u8")], [RET(CALL("ext_b", CALL("ext_a", L(1)), CALL("ext_a", L(2))))])], [], EXT),
+        [([0], "unspec", 0)], STUB)
+    # short circuit keeps the division from happening
+    add("short-circuit",
+        PROG([FN("f", "i32", [("a", "i32")],
+                 [RET(B("+", B("&&", B("!=", V("a"), L(0)), B(">", B("/", L(100), V("a")), L(3))),
+                        B("*", L(2), B("||", B("==", V("a"), L(0)), B("<", B("%", L(7), V("a")), L(0))))))])]),
+        [([0], "ok", 2), ([5], "ok", 1), ([50], "ok", 0), ([-7], "ok", 0)])
+    # undefined behaviour
+    add("ub-overflow", PROG([FN("f", "i32", [("a", "i32")], [RET(B("+", V("a"), L(1)))])]),
+        [([2147483647], "undefined", 0), ([2147483646], "ok", 2147483647)])
+    add("ub-divide", PROG([FN("f", "i32", [("a", "i32"), ("b", "i32")], [RET(B("%", V("a"), V("b")))])]),
+        [([1, 0], "undefined", 0), ([-2147483648, -1], "undefined", 0), ([-7, 2], "ok", -1), ([7, -2], "ok", 1)])
+    add("ub-shift", PROG([FN("f", "i32", [("a", "u8"), ("n", "i32")], [RET(B("<<", V("a"), V("n")))])]),
+        [([1, 32], "undefined", 0), ([1, -1], "undefined", 0), ([1, 31], "undefined", 0), ([1, 30], "ok", 1 << 30),
+         ([255, 23], "ok", 255 << 23), ([255, 24], "undefined", 0)])
+    add("ub-index", PROG([FN("f", "i32", [("k", "i32")], [RET(IDX("ga", V("k")))])], [{"n": "ga", "ty": "i16", "len": 3, "init": [4, 5]}]),
+        [([3], "undefined", 0), ([-1], "undefined", 0), ([2], "ok", 0), ([1], "ok", 5)])
+    add("ub-no-return", PROG([FN("f", "i32", [("k", "i32")], [IF(B(">", V("k"), L(0)), [RET(L(1))])])]),
+        [([1], "ok", 1), ([0], "undefined", 0)])
+    # implementation-defined
+    add("impldef", PROG([FN("f", "i32", [("a", "i32"), ("m", "i32")],
+                            [IF(V("m"), [RET(CAST("c8", V("a")))]), RET(B(">>", V("a"), L(1)))])]),
+        [([200, 1], "impldef", 0), ([-1, 0], "impldef", 0), ([-128, 1], "ok", -128), ([255, 0], "ok", 127)])
+    # unsigned arithmetic and mixed comparisons
+    add("unsigned", PROG([FN("f", "i64", [("a", "i32")],
+                             [IF(B("<", V("a"), L(1, "u32")), [RET(B("-", L(0, "u32"), L(1, "u32")))]),
+                              RET({"k": "cond", "c": B(">", V("a"), L(5)), "a": U("-", L(1)), "b": L(1, "u32")})])]),
+        [([0], "ok", 4294967295), ([-1], "ok", 1), ([9], "ok", 4294967295), ([3], "ok", 1)])
+    add("literal-types", PROG([FN("f", "i32", [("a", "i32")],
+                                  [RET(B("+", B(">", L(2147483648), U("-", L(1))),
+                                         B("*", L(2), B(">", L(2147483648, "u32"), U("-", L(1))))))])]),
+        [([0], "ok", 1)])
+    # compound assignment and ++ are computed in the converted type, then converted back
+    add("compound", PROG([FN("f", "i32", [("a", "u8"), ("b", "i32")],
+                             [ASG(V("a"), V("b"), "+="), ASG(V("a"), L(31), ">>="), {"k": "inc", "lhs": V("a"), "op": "--"},
+                              RET(V("a"))])]),
+        [([200, 100], "ok", 255), ([200, 2147483447], "ok", 255), ([1, 2147483647], "undefined", 0)])
+    add("compound-signed", PROG([FN("f", "i32", [("a", "c8"), ("b", "u32")], [ASG(V("a"), V("b"), "/="), RET(V("a"))])]),
+        # (unsigned)-2 / 2 = 2147483647 is not representable in signed char; (unsigned)-2 / UINT_MAX = 0
+        [([-2, 2], "impldef", 0), ([100, 7], "ok", 14), ([-128, 1], "impldef", 0), ([-2, 4294967295], "ok", 0)])
+    # struct layout and arrays through a pointer parameter
+    gs = {"n": "gs", "struct": [{"f": "m0", "ty": "c8"}, {"f": "m1", "ty": "i32"}, {"f": "m2", "ty": "u8"}, {"f": "m3", "ty": "i64"}],
+          "init": [1, 2, 3]}
+    pfun = {"n": "g", "ret": "i32", "params": [{"n": "i", "ty": "c8"}, {"n": "p", "ty": "i16", "ptr": True, "len": 4}],
+            "body": [ASG({"k": "deref", "p": "p", "e": V("i")}, L(7), "*="), RET({"k": "deref", "p": "p", "e": L(0)})]}
+    add("struct-and-pointer",
+        PROG([pfun, FN("f", "i32", [("a", "c8")],
+                       [ASG(FLD("gs", "m1"), B("+", FLD("gs", "m2"), V("a"))), ASG(FLD("gs", "m3"), U("-", L(2))),
+                        {"k": "declarr", "n": "la", "ty": "u8", "len": 3, "init": [250]},
+                        ASG(IDX("la", L(2)), B("+", IDX("la", L(0)), L(10))),
+                        RET(B("+", CALL("g", V("a"), {"k": "addr", "a": "ga", "e": L(1)}), IDX("la", L(2))))])],
+             [gs, {"n": "ga", "ty": "i16", "len": 4, "init": [10, 20, 30, 40]}]),
+        [([-1], "ok", 20 + 4, [], {"gs@4": (2, 4), "gs@8": (3, 1), "gs@16": (-2, 8), "gs@0": (1, 1), "ga": [(70, 2), (20, 2), (30, 2), (40, 2)]}),
+         ([2], "ok", 20 + 4, [], {"ga": [(10, 2), (20, 2), (30, 2), (280, 2)], "gs@4": (5, 4)}),
+         ([3], "undefined", 0), ([-2], "undefined", 0)])
+    # conversion on return; infinite loop runs out of fuel
+    add("return-conversion", PROG([FN("f", "u8", [("a", "i32")], [RET(V("a"))])]), [([300], "ok", 44), ([-1], "ok", 255)])
+    add("fuel", PROG([FN("f", "i32", [("a", "i32")], [{"k": "while", "c": L(1), "b": [{"k": "seq", "b": [{"k": "expr", "e": V("a")}]}]},
+                                                      RET(L(0))])]), [([0], "fuel", 0)], fuel=60)
+    return out
+
+
+def micro_cases():
+    cases = []
+    for name, prog, runs, ext, fuel in micro_programs():
+        f = [x for x in prog["funcs"] if x["n"] == prog["main"]][0]
+        extsig = {x["n"]: x for x in prog["externs"]}
+        expect = []
+        for run in runs:
+            args, status, rv = run[0], run[1], run[2]
+            calls = run[3] if len(run) > 3 else []
+            gl = run[4] if len(run) > 4 else {}
+            globs = []
+            for gname, val in gl.items():
+                if isinstance(val, list):
+                    globs.append({"name": gname, "off": 0, "bytes": sum((absprog.word(v, n) for v, n in val), [])})
+                else:
+                    nm, _, off = gname.partition("@")
+                    globs.append({"name": nm, "off": int(off or 0), "bytes": absprog.word(val[0], val[1])})
+            expect.append({"status": status, "ret": absprog.word(rv, BITS[f["ret"]] // 8) if status == "ok" else [],
+                           "calls": [{"name": n, "args": [absprog.word(a, BITS[t] // 8) for a, t in zip(av, extsig[n]["args"])]}
+                                     for n, av in calls],
+                           "globals": globs})
+        cases.append({"id": name, "prog": absprog.to_src(prog), "fn": f["n"], "argv": [absprog.src_args(f, r[0]) for r in runs],
+                      "ext": ext, "fuel": fuel, "expect": expect})
+    return cases
+
+
 def model_check(ctx):
-    pass
+    cases = micro_cases()
+    path = ctx.trace_file(cases, "micro.json")
+    nv = 13 if ctx.tier == "thorough" else 7
+    res = ctx.tlc("Src_MC", MC_CFG % nv, label="Src_MC laws + micro programs", env={"TRACE_FILE": path}, continue_=True,
+                  workers=WORKERS, coverage=False)
+    os.unlink(path)
+    if res.errors:
+        msgs = []
+        for e in res.errors[:6]:
+            st = e.last
+            i = st.get("i")
+            msgs.append("%s %s case=%s state=%s %s" % (
+                e.kind, e.name, cases[i - 1]["id"] if isinstance(i, int) and 0 < i <= len(cases) else "-",
+                {k: str(v)[:300] for k, v in st.items() if k in ("i", "av", "lw", "status", "why", "ret", "calls", "glob")},
+                e.text[:300] if e.kind == "eval" else ""))
+        raise MachineryError("Src.tla fails its own model check:\n" + "\n".join(msgs))
+    ctx.cov["mc_micro_programs"] = len(cases)
+    ctx.cov["mc_micro_runs"] = sum(len(c["argv"]) for c in cases)
+    ctx.cov["mc_law_instances"] = 64 * nv * nv
 
 
 # ------------------------------------------------------------------ the engine
@@ -395,37 +664,59 @@ class Engine:
         ctx.assume("Src.tla is the C abstract machine for the LP64 data model of ppci's x86_64 target (cross-validated against gcc -fsanitize=undefined)")
         model_check(ctx)
 
+        # ---- stage 1: systematic probes -------------------------------------------------------------
+        allp = list(probes())
+        if thorough:
+            chosen = allp
+        else:
+            # quick: the sentinels (one or two per construct class that the random stage may have to avoid)
+            # with all their vectors + a seeded sample of the rest; the thorough tier runs every probe
+            rest = [p for p in allp if p[0] not in SENTINELS]
+            chosen = [p for p in allp if p[0] in SENTINELS] + \
+                     [rest[k] for k in sorted(ctx.rng.sample(range(len(rest)), min(QUICK_PROBES, len(rest))))]
         items = []
-        nprobe_vec = None if thorough else 5
-        for key, prog, small in probes():
+        for key, prog, small in chosen:
             f = [x for x in prog["funcs"] if x["n"] == prog["main"]][0]
-            vecs = probe_vectors(f, small, ctx.rng, nprobe_vec if len(f["params"]) > 1 else None)
-            items.append(make_item(key, prog, vecs, [], "probe"))
-        items += random_items(ctx, 600 if thorough else 45, 10 if thorough else 6)
-        if ctx.only is not None:
-            want = (ctx.only.get("case") or {}).get("item")
-            items = [it for it in items if it["key"] == want] or items
-        nall = len(items)
-        items = compile_items(ctx, items)
-        ctx.cov["programs_generated"] = nall
-        ctx.cov["programs_compiled"] = len(items)
-
-        batches = [items] if not thorough else [items[k:k + 1500] for k in range(0, len(items), 1500)]
+            n = None if thorough or key in SENTINELS or len(f["params"]) < 2 else QUICK_PROBE_VECTORS
+            items.append(make_item(key, prog, probe_vectors(f, small, ctx.rng, n), [], "probe"))
+        ctx.cov["probes_total"] = len(allp)
+        ctx.cov["probes_run"] = len(items)
         stat = {}
-        for bi, batch in enumerate(batches):
-            obs = run_src(ctx, batch, "Src executions %d" % bi)
-            res, bad = judge(ctx, batch, obs, "Src vs IR %d" % bi)
-            guard = {}
-            if bad or thorough:
-                only = None if thorough else {k for k, _ in bad}
-                guard = gcc_guard(ctx, batch, obs, only)
-            self.account(ctx, batch, obs, bad, guard, stat)
+        failing = self.stage(ctx, items, "probes", stat, 1500)
+        classes = sorted({c for k in failing for c in [construct_class(k)] if c})
+        ctx.cov["construct_classes_avoided_in_random_programs"] = classes
+
+        # ---- stage 2: random programs (without the construct classes whose probes failed in stage 1) ------
+        rnd = random_items(ctx, 500 if thorough else QUICK_PROGRAMS, 10 if thorough else 6, classes)
+        self.stage(ctx, rnd, "random", stat, 250)
         ctx.cov["src_status"] = stat
         tot = sum(v for k, v in stat.items() if ":" not in k)
         ctx.cov["compared_ratio"] = round(stat.get("ok", 0) / max(1, tot), 3)
+        rt = sum(v for k, v in stat.items() if k.startswith("random:"))
+        ctx.cov["compared_ratio_random_programs"] = round(stat.get("random:ok", 0) / max(1, rt), 3)
+
+    def stage(self, ctx, items, name, stat, batch_size):
+        """Compile, execute under Src.tla, judge against the IR; returns the keys of the items with a violation."""
+        if ctx.only is not None and (ctx.only.get("case") or {}).get("item"):
+            want = ctx.only["case"]["item"]
+            items = [it for it in items if it["key"] == want or (name == "probes" and it["key"] in SENTINELS)]
+        ctx.cov["programs_generated"] = ctx.cov.get("programs_generated", 0) + len(items)
+        items = compile_items(ctx, items)
+        ctx.cov["programs_compiled"] = ctx.cov.get("programs_compiled", 0) + len(items)
+        failing = set()
+        for bi in range(0, len(items), batch_size):
+            batch = items[bi:bi + batch_size]
+            obs = run_src(ctx, batch, "Src executions (%s %d)" % (name, bi // batch_size))
+            res, bad = judge(ctx, batch, obs, "Src vs IR (%s %d)" % (name, bi // batch_size))
+            guard = {}
+            if bad or ctx.tier == "thorough":
+                guard = gcc_guard(ctx, batch, obs, None if ctx.tier == "thorough" else {k for k, _ in bad})
+            failing |= self.account(ctx, batch, obs, bad, guard, stat)
+        return failing
 
     def account(self, ctx, batch, obs, bad, guard, stat):
         reported = set()
+        failing = set()
         for k, it in enumerate(batch):
             for a in range(len(it["vecs"])):
                 o = obs[(k, a)]
@@ -452,6 +743,7 @@ class Engine:
                         print("SPEC-SUSPECT property=C01 case=%s args=%s (gcc %s)" % (it["key"], it["vecs"][a], g))
                         ctx.cov["spec_suspect"] = ctx.cov.get("spec_suspect", 0) + 1
                         continue
+                    failing.add(it["key"])
                     if it["key"] in reported:
                         continue
                     reported.add(it["key"])
@@ -460,5 +752,6 @@ class Engine:
                                    "expected": {"ret": o["ret"], "calls": o["calls"], "globals": o["globals"]},
                                    "ir_state": {x: s.get(x) for x in ("status", "why", "ret", "calls")},
                                    "gcc": g})
-        for it in batch[:2] + [x for x in batch if x["kind"] == "random"][:2]:
-            ctx.sample({"key": it["key"], "args": it["vecs"][:2], "source": it["src"][:400]})
+        for it in batch[:2]:
+            ctx.sample({"key": it["key"], "args": it["vecs"][:2], "source": it["src"][:400]}, limit=4)
+        return failing
